@@ -109,3 +109,80 @@ Example cpp_theorem_applies :
   (forall x, x < 4 -> depth_le e 1 x = true) /\
   hpp_events e 2 5 0 = ([Declare 0; Declare 1; Use 1; Use 0; Declare 3; Use 3; Declare 2; Use 3; Use 2; Use 3; Use 0; Use 1; Use 0; Use 1; Use 2], true).
 Proof. split; [intros x Hx; do 4 (destruct x as [|x]; [reflexivity|]); lia|vm_compute; reflexivity]. Qed.
+
+(* ---------- the fuel always suffices: number of types + 1 ---------- *)
+Definition missing (n : nat) (sh : list nat) : nat := length (filter (fun x => negb (mem x sh)) (seq 0 n)).
+
+Lemma filter_mono (a b l : list nat) : (forall x, In x a -> In x b) ->
+  length (filter (fun x => negb (mem x b)) l) <= length (filter (fun x => negb (mem x a)) l).
+Proof.
+  intros H. induction l as [|y r IH]; cbn [filter]; auto.
+  destruct (mem y b) eqn:Eb, (mem y a) eqn:Ea; cbn [negb length]; try lia.
+  apply mem_in in Ea. apply H in Ea. apply mem_in in Ea. congruence.
+Qed.
+
+Lemma filter_cons_lt t sh l : In t l -> ~ In t sh ->
+  length (filter (fun x => negb (mem x (t :: sh))) l) < length (filter (fun x => negb (mem x sh)) l).
+Proof.
+  intros Hin Hn. induction l as [|y r IH]; [destruct Hin|].
+  pose proof (filter_mono sh (t :: sh) r (fun x Hx => or_intror Hx)) as M.
+  cbn [filter]. destruct (Nat.eq_dec y t) as [->|Ne].
+  - assert (E1 : mem t (t :: sh) = true) by (apply mem_in; left; auto).
+    assert (E2 : mem t sh = false) by (apply not_true_is_false; intros E; apply mem_in in E; contradiction).
+    rewrite E1, E2. cbn [negb length]. lia.
+  - destruct Hin as [->|Hin]; [contradiction|]. specialize (IH Hin).
+    assert (E : mem y (t :: sh) = mem y sh).
+    { unfold mem. cbn [existsb]. destruct (y =? t) eqn:Q; [apply Nat.eqb_eq in Q; contradiction|]. reflexivity. }
+    rewrite E. destruct (mem y sh); cbn [negb length]; lia.
+Qed.
+
+Definition wf_env (e : env) (n : nat) : Prop := forall t x, In x (crefs e t) -> x < n.
+
+Lemma expand_hpp_snd_mono e fd : forall f t st, forall s, In s (snd st) -> In s (snd (fst (fst (expand_hpp e fd f t st)))).
+Proof.
+  induction f as [|f IH]; intros t st s Hs; cbn [expand_hpp]; destruct (mem t (snd st)); cbn [fst snd]; auto.
+  destruct (expand_d e fd t (fst st)) as [sd1 ev1].
+  assert (G : forall ys s0 a0 o0, In s (snd s0) -> In s (snd (fst (fst (fold_left (hfun e fd f) ys (s0, a0, o0)))))).
+  { induction ys as [|y ys IHy]; intros s0 a0 o0 H0; cbn [fold_left fst snd]; auto.
+    pose proof (IH y s0 s H0) as Hy. destruct (expand_hpp e fd f y s0) as [[s1 e1] o1]. cbn [fst snd] in Hy. apply IHy. exact Hy. }
+  specialize (G (crefs e t) (sd1, t :: snd st) [] true (or_intror Hs)).
+  destruct (fold_left (hfun e fd f) (crefs e t) (sd1, t :: snd st, [], true)) as [[s2 ev2] ok2]. exact G.
+Qed.
+
+Lemma expand_hpp_fuel e fd n : wf_env e n -> forall f t st, t < n -> missing n (snd st) < f ->
+  snd (expand_hpp e fd f t st) = true.
+Proof.
+  intros W. induction f as [|f IH]; intros t st Ht Hm; [lia|].
+  cbn [expand_hpp]. destruct (mem t (snd st)) eqn:E; [reflexivity|].
+  destruct (expand_d e fd t (fst st)) as [sd1 ev1].
+  assert (Hn : ~ In t (snd st)) by (intros H; apply mem_in in H; congruence).
+  assert (Hlt : missing n (t :: snd st) < missing n (snd st)).
+  { unfold missing. apply filter_cons_lt; auto. apply in_seq. lia. }
+  assert (G : forall ys s0 a0 o0, (forall y, In y ys -> y < n) -> (forall s, In s (t :: snd st) -> In s (snd s0)) -> o0 = true ->
+             snd (fold_left (hfun e fd f) ys (s0, a0, o0)) = true).
+  { induction ys as [|y ys IHy]; intros s0 a0 o0 Hy Hsub Ho; cbn [fold_left snd]; auto.
+    assert (Hm0 : missing n (snd s0) < f).
+    { pose proof (filter_mono (t :: snd st) (snd s0) (seq 0 n) Hsub). unfold missing in *. lia. }
+    pose proof (IH y s0 (Hy y (or_introl eq_refl)) Hm0) as Hok.
+    pose proof (expand_hpp_snd_mono e fd f y s0) as Hmono.
+    destruct (expand_hpp e fd f y s0) as [[s1 e1] o1]. cbn [fst snd] in *.
+    apply IHy; [intros z Hz; apply Hy; right; exact Hz| |rewrite Ho, Hok; reflexivity].
+    intros s Hs. apply Hmono. apply Hsub. exact Hs. }
+  specialize (G (crefs e t) (sd1, t :: snd st) [] true (fun y Hy => W t y Hy) (fun s Hs => Hs) eq_refl).
+  destruct (fold_left (hfun e fd f) (crefs e t) (sd1, t :: snd st, [], true)) as [[s2 ev2] ok2]. exact G.
+Qed.
+
+(* the same statement without the flag: number of types + 1 levels of includes are always enough *)
+Theorem cpp_complete_before_body_total e fd n t :
+  (forall x, depth_le e fd x = true) -> wf_env e n -> t < n ->
+  declared_before_use (fst (hpp_events e (S fd) (S n) t)) = true.
+Proof.
+  intros Hd W Ht. apply cpp_complete_before_body; auto.
+  unfold hpp_events. pose proof (expand_hpp_fuel e (S fd) n W (S n) t ([], []) Ht) as H.
+  assert (Hm : missing n (snd (@nil nat, @nil nat)) < S n).
+  { unfold missing. cbn [snd].
+    assert (L : forall (g : nat -> bool) l, length (filter g l) <= length l).
+    { intros g l. induction l as [|y r IHl]; cbn [filter length]; auto. destruct (g y); cbn [length]; lia. }
+    specialize (L (fun x => negb (mem x [])) (seq 0 n)). rewrite seq_length in L. lia. }
+  specialize (H Hm). destruct (expand_hpp e (S fd) (S n) t ([], [])) as [[st evs] ok]. exact H.
+Qed.
